@@ -2,6 +2,7 @@ package props
 
 import (
 	"fmt"
+	"github.com/datastax/cql-proxy/proxy"
 	"strings"
 	"time"
 
@@ -38,6 +39,22 @@ func maybeApplied(outcome string) bool {
 	return false
 }
 
+// eagerRetryPolicy retries everything it is asked about on the next host.
+type eagerRetryPolicy struct{}
+
+func (eagerRetryPolicy) OnReadTimeout(*message.ReadTimeout, int) proxy.RetryDecision {
+	return proxy.RetryNext
+}
+func (eagerRetryPolicy) OnWriteTimeout(*message.WriteTimeout, int) proxy.RetryDecision {
+	return proxy.RetryNext
+}
+func (eagerRetryPolicy) OnUnavailable(*message.Unavailable, int) proxy.RetryDecision {
+	return proxy.RetryNext
+}
+func (eagerRetryPolicy) OnErrorResponse(message.Error, int) proxy.RetryDecision {
+	return proxy.RetryNext
+}
+
 const connLostText = "unable to retry non-idempotent"
 
 // C04 — non-idempotent requests are never re-executed once they may have been applied.
@@ -49,6 +66,13 @@ func c04(e *Env) {
 	c := e.C
 	cfg := swarmWorld(e)
 	cfg.IdempotentGraph = c.Choose("idemgraph", 3) == 2
+	// The guarantee is the proxy's, not the retry policy's: a quarter of the runs configure a
+	// policy (proxy.Config.RetryPolicy) that asks for the next host after every error it is asked
+	// about. What is not positively idempotent must still not be sent again once it may have been applied.
+	if c.Choose("eager-retry-policy", 4) == 3 {
+		cfg.TweakProxy = func(pc *proxy.Config) { pc.RetryPolicy = eagerRetryPolicy{} }
+		e.Res.Stats["probe.c04.eager_retry_policy"]++
+	}
 	p := fwdParams{
 		ExoticErrors: true,
 		Hosts:        1 + c.Choose("hosts", 4),
